@@ -210,6 +210,12 @@ impl wtransport_proto::bytes::AsyncRead for QuicRecvStream {
         cx: &mut Context<'_>,
         buf: &mut [u8],
     ) -> Poll<std::io::Result<usize>> {
+        #[cfg(wtransport_verif)]
+        let buf = match crate::verif::read_cap() {
+            cap if cap > 0 && buf.len() > cap => &mut buf[..cap],
+            _ => buf,
+        };
+
         let mut buffer = ReadBuf::new(buf);
 
         match ready!(tokio::io::AsyncRead::poll_read(
